@@ -15,6 +15,7 @@
 #include <ucontext.h>
 #include <unistd.h>
 
+#include <atomic>
 #include <functional>
 #include <memory>
 #include <tuple>
@@ -302,11 +303,15 @@ public:
   verif_shim_atomic(const verif_shim_atomic&) = delete;
   verif_shim_atomic& operator=(const verif_shim_atomic&) = delete;
 
-  T load() const {
+  // Every operation takes the optional std::memory_order arguments of std::atomic. They are accepted and ignored: the
+  // controlled scheduler explores sequentially consistent interleavings only (behaviour that exists only under a weaker
+  // ordering is left to the ThreadSanitizer stage, which runs the real std::atomic on real threads).
+  using MO = std::memory_order;
+  T load(MO = std::memory_order_seq_cst) const {
     pt();
     return v;
   }
-  void store(T x) {
+  void store(T x, MO = std::memory_order_seq_cst) {
     pt();
     v = x;
   }
@@ -319,26 +324,46 @@ public:
     pt();
     return v;
   }
-  T fetch_add(T d) {
+  T fetch_add(T d, MO = std::memory_order_seq_cst) {
     pt();
     T old = v;
     v = static_cast<T>(v + d);
     return old;
   }
-  T fetch_sub(T d) {
+  T fetch_sub(T d, MO = std::memory_order_seq_cst) {
     pt();
     T old = v;
     v = static_cast<T>(v - d);
     return old;
   }
-  T exchange(T x) {
+  T fetch_or(T d, MO = std::memory_order_seq_cst) {
+    pt();
+    T old = v;
+    v = static_cast<T>(v | d);
+    return old;
+  }
+  T fetch_and(T d, MO = std::memory_order_seq_cst) {
+    pt();
+    T old = v;
+    v = static_cast<T>(v & d);
+    return old;
+  }
+  T fetch_xor(T d, MO = std::memory_order_seq_cst) {
+    pt();
+    T old = v;
+    v = static_cast<T>(v ^ d);
+    return old;
+  }
+  T exchange(T x, MO = std::memory_order_seq_cst) {
     pt();
     T old = v;
     v = x;
     return old;
   }
-  bool compare_exchange_weak(T& expected, T desired) { return compare_exchange_strong(expected, desired); }
-  bool compare_exchange_strong(T& expected, T desired) {
+  bool compare_exchange_weak(T& expected, T desired, MO = std::memory_order_seq_cst) { return compare_exchange_strong(expected, desired); }
+  bool compare_exchange_weak(T& expected, T desired, MO, MO) { return compare_exchange_strong(expected, desired); }
+  bool compare_exchange_strong(T& expected, T desired, MO, MO) { return compare_exchange_strong(expected, desired); }
+  bool compare_exchange_strong(T& expected, T desired, MO = std::memory_order_seq_cst) {
     pt();
     if (v == expected) {
       v = desired;
@@ -347,9 +372,13 @@ public:
     expected = v;
     return false;
   }
+  bool is_lock_free() const { return true; }
   T operator++() { return static_cast<T>(fetch_add(1) + 1); }
   T operator++(int) { return fetch_add(1); }
   T operator+=(T d) { return static_cast<T>(fetch_add(d) + d); }
+  T operator--() { return static_cast<T>(fetch_sub(1) - 1); }
+  T operator--(int) { return fetch_sub(1); }
+  T operator-=(T d) { return static_cast<T>(fetch_sub(d) - d); }
 
 private:
   static void pt() {
